@@ -19,6 +19,25 @@ Semantics
 """
 import errno
 import io
+import os
+
+
+class _MirroredDict(dict):
+    """path -> durable bytes, mirrored to real files under fs.mirror."""
+
+    def __init__(self, fs):
+        super().__init__()
+        self._fs = fs
+
+    def __setitem__(self, key, value):
+        super().__setitem__(key, value)
+        try:
+            real = os.path.join(self._fs.mirror, key)
+            os.makedirs(os.path.dirname(real) or self._fs.mirror, exist_ok=True)
+            with open(real, "wb") as f:
+                f.write(value)
+        except OSError:
+            pass
 
 
 class SimCrash(BaseException):
@@ -26,8 +45,12 @@ class SimCrash(BaseException):
 
 
 class SimFS:
-    def __init__(self, plan=None):
-        self.files: dict[str, bytes] = {}
+    def __init__(self, plan=None, mirror=None):
+        """mirror: a real scratch directory.  When given, durable content is mirrored to real files there and path(name)
+        hands out absolute paths inside it, so that code which stats, lists or memoises files by name sees a real file
+        system; SimFS stays the source of truth and the place where faults are injected."""
+        self.mirror = mirror
+        self.files: dict[str, bytes] = _MirroredDict(self) if mirror else {}
         self.plan = [dict(p) for p in (plan or [])]
         self.fired: list[dict] = []
         self.counts = {"open_r": 0, "open_w": 0, "read": 0, "write_calls": 0, "bytes_written": 0}
@@ -48,9 +71,19 @@ class SimFS:
                 return p
         return None
 
+    def path(self, name: str) -> str:
+        """The path to hand to the code under test for a file called `name`."""
+        return os.path.join(self.mirror, name) if self.mirror else name
+
+    def _key(self, path) -> str:
+        path = str(path)
+        if self.mirror and path.startswith(self.mirror + os.sep):
+            return path[len(self.mirror) + 1:]
+        return path
+
     # -- the seam ----------------------------------------------------------
     def open(self, path, mode="r", *args, **kwargs):
-        path = str(path)
+        path = self._key(path)
         binary = "b" in mode
         if "w" in mode or "a" in mode or "x" in mode:
             self.counts["open_w"] += 1
@@ -72,13 +105,13 @@ class SimFS:
 
     # direct access for the harness (not subject to faults)
     def put(self, path: str, data) -> None:
-        self.files[str(path)] = data.encode() if isinstance(data, str) else bytes(data)
+        self.files[self._key(path)] = data.encode() if isinstance(data, str) else bytes(data)
 
     def get(self, path: str) -> bytes | None:
-        return self.files.get(str(path))
+        return self.files.get(self._key(path))
 
     def text(self, path: str) -> str | None:
-        b = self.files.get(str(path))
+        b = self.files.get(self._key(path))
         return None if b is None else b.decode("utf-8", errors="replace")
 
 
